@@ -45,9 +45,11 @@ func (k Keeper) HandleRelay(ctx sdk.Ctx, relay pc.Relay) (*pc.RelayResponse, sdk
 	// retrieve the nonNative blockchains your node is hosting
 	hostedBlockchains := k.GetHostedBlockchains()
 
-	// ensure the validity of the relay
+	// ensure the validity of the relay; uniqueness / limit check and the storing of the proof are one critical section
+	servicerNode.RelayMu.Lock()
 	maxPossibleRelays, err := relay.Validate(ctx, k.posKeeper, k.appKeeper, k, hostedBlockchains, sessionBlockHeight, servicerNode)
 	if err != nil {
+		servicerNode.RelayMu.Unlock()
 		if pc.GlobalPocketConfig.RelayErrors {
 			ctx.Logger().Error(
 				fmt.Sprintf("could not validate relay for app: %s for chainID: %v with error: %s",
@@ -72,6 +74,7 @@ func (k Keeper) HandleRelay(ctx sdk.Ctx, relay pc.Relay) (*pc.RelayResponse, sdk
 	pc.VerifYieldAt("relay.validated")
 	// store the proof before execution, because the proof corresponds to the previous relay
 	relay.Proof.Store(maxPossibleRelays, servicerNode.EvidenceStore)
+	servicerNode.RelayMu.Unlock()
 	// attempt to execute
 	respPayload, err := relay.Execute(hostedBlockchains, &servicerNodeAddr)
 	if err != nil {
